@@ -743,6 +743,9 @@ def gen_sched(rng):
     several optional resource keys around $(LAUNCHER), dry-run with a scheduler
     batch block: the script texts carry headers and launcher command lines"""
     r = rng.random()
+    if r < 0.4:
+        return gen_long(rng)
+    r = rng.random()
     case = gen_wide(rng) if r < 0.5 else (gen_ties(rng) if r < 0.7 else c08.gen_case(rng, "valid"))
     case["stream"] = "sched"
     case["adapter"] = rng.choice(["slurm", "slurm", "slurm", "lsf", "lsf", "flux"])
@@ -805,6 +808,51 @@ def gen_env(rng):
     return case
 
 
+LONG_KEYS = ["RESOLUTION_LEVEL", "TIME_STEP_SIZE", "MATERIAL_MODEL", "BOUNDARY_KIND", "SOLVER_TOLERANCE",
+             "MESH_REFINEMENT", "OUTPUT_FREQUENCY", "RANDOM_SEED_ID", "COUPLING_SCHEME"]
+LONG_STEPS = ["simulate-the-coupled-problem", "assemble_and_factorise.stage-2", "post-process-and-reduce", "run"]
+ODD_STEPS = ["7", "0123", "1e5", "x", "Z", "schritt-\u00fc", "\u00e9tape_2", "-", "3.14"]
+
+
+def gen_long(rng, adapter=None, target=None):
+    """scheduled steps whose expanded instance names are LONG (just over 64 / 128
+    characters, near the 255-byte file-name limit): ~8 parameters with
+    descriptive labels, long step names, never --hashws; plus steps with
+    numeric-looking, non-ASCII and single-character names.  Script texts (job
+    name / output / error header lines, launcher lines) are compared across
+    processes only."""
+    target = target or rng.choice([rng.randint(66, 100), rng.randint(129, 150), rng.randint(129, 200),
+                                   rng.randint(200, 236), 236])
+    step = rng.choice(LONG_STEPS)
+    keys = rng.sample(LONG_KEYS, rng.randint(6, 9))
+    nrows = 2
+    params = [{"key": k, "name": None, "values": [rng.choice([1, 2, 10]), rng.choice([3, 4, 20])][:nrows],
+               "label": "%s.%%%%" % k} for k in keys]
+
+    def name_len(ps):
+        labs = [p["label"].replace("%%", str(max(p["values"], key=lambda v: len(str(v))))) for p in ps]
+        return len(step) + 1 + len(".".join(labs))
+    while len(params) > 1 and name_len(params) > target:
+        params.pop()
+    pad = target - name_len(params)
+    if pad > 0:
+        params[-1]["label"] = "%s.%%%%%s" % (params[-1]["key"], "-padding"[:1] + "x" * (pad - 1))
+    toks = " ".join("$(%s)" % p["key"] for p in params)
+    steps = [{"name": step, "description": "long instance names",
+              "run": {"cmd": "$(LAUNCHER) solver %s" % toks, "nodes": rng.choice([1, 2]), "procs": rng.choice([2, 4]),
+                      "cores per task": 2, "gpus": 1, "walltime": "00:10:00"}},
+             {"name": "post", "description": "inherits the long combination",
+              "run": {"cmd": "$(LAUNCHER) reduce $(%s.workspace)/o" % step, "depends": [step], "nodes": 1, "procs": 1}}]
+    for odd in rng.sample(ODD_STEPS, rng.randint(1, 3)):
+        run = {"cmd": "$(LAUNCHER) echo $(%s)" % params[0]["key"] if rng.random() < 0.5 else "$(LAUNCHER) true",
+               "nodes": 1, "procs": rng.choice([1, 2])}
+        if rng.random() < 0.5:
+            run["depends"] = [rng.choice([step, step + "_*"])]
+        steps.append({"name": odd, "description": "boundary name", "run": run})
+    return {"rlimit": 0, "params": params, "steps": steps, "stream": "sched", "long_target": target,
+            "adapter": adapter or rng.choice(["slurm", "slurm", "lsf", "flux"])}
+
+
 def cross_only(case):
     """cases the Gallina model does not describe: processes against each other only"""
     return bool(case.get("hashws")) or bool(case.get("real")) or bool(case.get("env")) \
@@ -833,7 +881,7 @@ def generate(rng, tier):
     gen += [gen_env(rng) for _ in range(n_env)]
     for c in gen:                      # the flags: --hashws / --usetmp / through the Conductor / real run
         r = rng.random()
-        if r < 0.25:
+        if r < 0.25 and not c.get("long_target"):
             c["hashws"] = True
         if rng.random() < 0.15:
             c["usetmp"] = True
@@ -981,7 +1029,10 @@ def run(ck):
                       "names are equal up to case / underscores / digit suffix, e.g. temp/TEMP, used together in one step); "
                       "+ the 'sched' stream (slurm/lsf/flux batch block, steps with nodes/procs and optional resource keys "
                       "cores per task/gpus/walltime/reservation/exclusive/qos/... around $(LAUNCHER): script texts with "
-                      "scheduler headers and launcher command lines, compared across processes only); "
+                      "scheduler headers and launcher command lines, compared across processes only; 40%% of them have LONG "
+                      "instance names -- just over 64 / 128 characters and up to 236, near the 255-byte file-name limit: "
+                      "6-9 parameters with descriptive labels, long step names, never --hashws -- plus steps with "
+                      "numeric-looking, non-ASCII and single-character names, for every batch type); "
                       "+ the 'env' stream (environments with chains / a diamond of 2-5 variables/labels referring to each "
                       "other, declared outermost first / innermost first / shuffled in the variables / labels blocks, used in "
                       "cmd and restart; the Expand model has no environment: compared across processes only); "
